@@ -734,6 +734,40 @@ def run(chk):
 
     outs = common.pmap(batch_worker, batches(exe, jobs), chunk=1)
     merge(chk, outs)
+    cli_stream(chk)
+
+
+def cli_stream(chk):
+    """The property is also observed at `penman --reify-edges / --dereify-edges`: the tool with one or both options must
+    write what the library functions give (in-process call of penman.__main__.main, a few real subprocesses)."""
+    import penman
+    from penman import transform
+    from penman.models.amr import model as amr
+    from penman.tree import Tree
+    from harness import c20
+    n = 120 if chk.tier == 'quick' else 1200
+    roles = [':ARG0', ':ARG1', ':mod', ':location', ':time', ':poss', ':quant', ':polarity', ':ARG0-of', ':mod-of']
+    for i in range(n):
+        node = gen.random_tree_node(chk.rng, gen.fresh_vars(), maxdepth=chk.rng.choice([1, 2, 3]), wf=True, roles=roles,
+                                    atoms=['x', 'y', '-', '"s"', '7', 'have-mod-91'])
+        text = penman.format(Tree(node), indent=None) + '\n'
+        for flags in (['--reify-edges'], ['--dereify-edges'], ['--reify-edges', '--dereify-edges']):
+            case = {'stream': 'cli', 'text': text, 'flags': flags}
+            chk.count(('cli', text, tuple(flags)))
+            try:
+                g = penman.decode(text, model=amr)
+                if '--reify-edges' in flags:
+                    g = transform.reify_edges(g, amr)
+                if '--dereify-edges' in flags:
+                    g = transform.dereify_edges(g, amr)
+                want = penman.encode(g, model=amr) + '\n'
+            except Exception:       # noqa: judged elsewhere
+                continue
+            runner = c20.run_cli_subprocess if i % 40 == 0 else c20.run_cli_inprocess
+            out, code, err = runner(['--amr'] + flags, text, [])
+            if out != want or code != 0:
+                chk.fail('cli', f'penman --amr {" ".join(flags)} does not write what the library transforms give', dict(case, got=out, want=want))
+        chk.stat('cli-texts')
 
 
 # ============================================================================================
